@@ -29,7 +29,7 @@ PROPERTY = "C19"
 RUNS = {"quick": 6000, "thorough": 250000}
 RUN_WALL_CAP = 60.0
 REQUIRED_PROBES = {
-    "quick": ["switch_inside_generator", "adversary_write_between_events", "seed_zero_used", "list_dim_used", "triple_evaluated_3x", "unseeded_call", "pgm_checked", "measure_checked", "numpy_integer_seed", "positional_seed"],
+    "quick": ["switch_inside_generator", "adversary_write_between_events", "seed_zero_used", "list_dim_used", "triple_evaluated_3x", "unseeded_call", "pgm_checked", "measure_checked", "numpy_integer_seed", "positional_seed", "numpy_scalar_arguments"],
     "thorough": ["switch_inside_generator", "adversary_write_between_events", "seed_zero_used", "list_dim_used", "triple_evaluated_3x", "unseeded_call", "pgm_checked", "measure_checked", "popt_sdp_checked"],
 }
 COMPONENTS = {
@@ -45,9 +45,11 @@ RULE = (
 SHRINK_ORDER = ["config", "client", "adversary", "sched", "entropy"]
 
 SEED_POOL = [0, 1, 2, 42, 2**32 - 1, 123456789, 7, 2**32, 2**32 + 1, 2**63 + 5]
-SEED_FORMS = ["int", "int", "int", "np.int64", "np.uint64", "pos"]
+SEED_FORMS = ["int", "int", "int", "np.int64", "np.uint64", "pos", "np_args"]
 # "pos": every argument, the seed last, passed positionally in the order of the pinned public signature; it
 # is the same call as the keyword form and is judged against the keyword form's reference value.
+# "np_args": every integer argument as numpy.int64 and every flag as numpy.bool_ (what `for d in np.arange(2, 5)`
+# or `np.all(np.isreal(rho))` hand over); the same call, judged against the plain-Python call's reference value.
 POS_ORDER = {
     "random_unitary": ["dim", "is_real"],
     "random_density_matrix": ["dim", "is_real", "k_param", "distance_metric"],
@@ -284,6 +286,8 @@ def call_gen(R, name, params, seed, form="int", live=None):
                 params[k] = live[key]
     else:
         params = copy.deepcopy(params)
+    if form == "np_args":
+        params = {k: _np_arg(v) for k, v in params.items()}
     try:
         if form == "pos" and seed is not None:
             return ("ok", fn(*[params[k] for k in POS_ORDER[name]], seed))
@@ -292,8 +296,18 @@ def call_gen(R, name, params, seed, form="int", live=None):
         return ("exc", type(e).__name__, str(e)[:200])
 
 
+def _np_arg(v):
+    if isinstance(v, bool):
+        return np.bool_(v)
+    if isinstance(v, int):
+        return np.int64(v)
+    if isinstance(v, list):
+        return [_np_arg(e) for e in v]
+    return v
+
+
 def triple_key(name, params, seed, form="int"):
-    return json.dumps([name, params, seed, "int" if form == "pos" else form], sort_keys=True)
+    return json.dumps([name, params, seed, "int" if form in ("pos", "np_args") else form], sort_keys=True)
 
 
 def same(a, b):
@@ -355,7 +369,7 @@ def run(cs, tier, run_index):
             for op in ops:
                 for name, params, seed, form in expand_gen_calls(op):
                     if seed is not None:
-                        triples.setdefault(triple_key(name, params, seed, form), (name, params, seed, "int" if form == "pos" else form))
+                        triples.setdefault(triple_key(name, params, seed, form), (name, params, seed, "int" if form in ("pos", "np_args") else form))
         ref = {}
         for key, (name, params, seed, form) in triples.items():
             # every reference in a pristine library: nothing an earlier reference call left behind is visible
@@ -428,6 +442,8 @@ def run(cs, tier, run_index):
                     counts[key] = counts.get(key, 0) + 1
                     if form == "pos":
                         res.probe("positional_seed")
+                    elif form == "np_args":
+                        res.probe("numpy_scalar_arguments")
                     elif form != "int":
                         res.probe("numpy_integer_seed")
                     if seed == 0:
